@@ -57,7 +57,34 @@ def transpiler(ctx):
     return ctx.repo.get_class(TR, "NVSubroutineTranspiler")
 
 
-def run_handler(ctx, handler: str, instr: C.Obj, sc: C.Scenario):
+def new_self(ctx) -> C.Obj:
+    """the transpiler object with the constant-initialised attributes of its __init__ chain"""
+    repo = ctx.repo
+    T = transpiler(ctx)
+    fields: Dict[str, Any] = {}
+    for k in reversed(repo.mro(T)):
+        init = k.methods.get("__init__")
+        if init is None:
+            continue
+        for n in ast.walk(init):
+            tgt = val = None
+            if isinstance(n, ast.Assign) and len(n.targets) == 1 and A.is_self_attr(n.targets[0]):
+                tgt, val = n.targets[0].attr, n.value
+            elif isinstance(n, ast.AnnAssign) and A.is_self_attr(n.target) and n.value is not None:
+                tgt, val = n.target.attr, n.value
+            if tgt is None:
+                continue
+            if isinstance(val, ast.Constant):
+                fields[tgt] = val.value
+            elif isinstance(val, ast.Call) and dotted(val.func) in ("set", "dict", "list") and not val.args:
+                fields[tgt] = {"set": set, "dict": dict, "list": list}[dotted(val.func)]()
+            elif isinstance(val, (ast.Dict, ast.List, ast.Set)) and not getattr(val, "elts", getattr(val, "keys", [])):
+                fields[tgt] = {} if isinstance(val, ast.Dict) else ([] if isinstance(val, ast.List) else set())
+    fields.pop("_debug", None)
+    return C.Obj(T, fields, "self")
+
+
+def run_handler(ctx, handler: str, instr: C.Obj, sc: C.Scenario, selfo: C.Obj = None):
     repo, ev = ctx.repo, ctx.ev
     T = transpiler(ctx)
     it = C.Interp(repo, ev, sc, T)
@@ -65,7 +92,8 @@ def run_handler(ctx, handler: str, instr: C.Obj, sc: C.Scenario):
     if r is None:
         raise AnalysisError(f"NVSubroutineTranspiler.{handler} not found")
     ctx.fn(f"NVSubroutineTranspiler.{handler}")
-    selfo = C.Obj(T, {}, "self")
+    if selfo is None:
+        selfo = new_self(ctx)
     return it.call_function(r[0].module, r[1], [instr], {}, self_obj=selfo)
 
 
@@ -104,7 +132,11 @@ def check_single(ctx, classes):
             if mn not in C.STATIC:
                 ctx.error("C07.G", f"no reference operator for vanilla gate {mn}")
                 break
-            U = C.unitary_of(repo, ev, gates, {id(q): 0}, 1)
+            try:
+                U = C.unitary_of(repo, ev, gates, {id(q): 0}, 1)
+            except C.CircuitProblem as e:
+                ctx.check("C07.G", f"single:{mn}", False, f"the NV expansion of `{mn}`: {e}", c.loc())
+                continue
             ok = C.equal_up_to_phase(U, C.STATIC[mn])
             adj = C.equal_up_to_phase(U, C.STATIC[mn].conj().T)
             seq = [(C.mnemonic_of(repo, ev, g.cls), g.fields["imm0"].value, g.fields["imm1"].value) for g in gates if g.cls.name != "DebugInstruction"]
@@ -195,8 +227,9 @@ def check_two_qubit(ctx, classes):
                 pos = {v: k for k, v in enumerate(ids)}
                 sc = C.Scenario(reg_values={id(a): i0, id(b): i1}, debug=debug)
                 kind = "electron-carbon" if i0 == 0 else ("carbon-electron" if i1 == 0 else f"carbon{i0}-carbon{i1}")
+                selfo = new_self(ctx)
                 try:
-                    gates = run_handler(ctx, "_handle_two_qubit_gate", C.Obj(c, {"reg0": a, "reg1": b, "lineno": None}), sc)
+                    gates = run_handler(ctx, "_handle_two_qubit_gate", C.Obj(c, {"reg0": a, "reg1": b, "lineno": None}), sc, selfo)
                 except C.EvalRaise as e:
                     ctx.note(f"{mn} {kind} not accepted ({e})")
                     continue
@@ -204,16 +237,40 @@ def check_two_qubit(ctx, classes):
                     n_maps += 1
                 qmap: Dict[Any, Any] = {id(a): pos[i0], id(b): pos[i1], "__virt__": pos}
                 problems: List[str] = []
-                U = C.unitary_of(repo, ev, gates, qmap, len(ids), electron_pos=pos[0], problems=problems)
-                expect = C.embed(C.STATIC[mn], [pos[i0], pos[i1]], len(ids))
-                ok = C.equal_up_to_phase(U, expect) and not problems
+                try:
+                    U = C.unitary_of(repo, ev, gates, qmap, len(ids), electron_pos=pos[0], problems=problems)
+                    expect = C.embed(C.STATIC[mn], [pos[i0], pos[i1]], len(ids))
+                    ok = C.equal_up_to_phase(U, expect) and not problems
+                except C.CircuitProblem as e:
+                    ok = False
+                    problems.append(str(e))
                 if debug and not ok:
                     continue
                 ctx.check("C07.T", f"two-qubit:{mn}:{kind}" + (":debug" if debug else ""), ok,
                           f"the NV expansion of `{mn}` (control id {i0}, target id {i1}; {len(gates)} instructions) is not {mn.upper()}"
                           + (" (x) identity on the electron: the borrowed electron is not returned to its prior state or the gate is wrong" if len(ids) == 3 else " up to global phase")
-                          + (f"; it uses a controlled rotation the NV flavour does not have: {problems[0]}" if problems else ""),
+                          + (f"; {problems[0]}" if problems else ""),
                           c.loc(), sample={"gate": mn, "placement": kind, "instructions": len(gates), "equal": ok}, trivial=debug)
+                if debug:
+                    continue
+                # the same transpiler object maps a second gate later in the program: in between the program may have written any
+                # Q register, so the second expansion must again establish every register it relies on
+                a2, b2 = C.RegSym("a2"), C.RegSym("b2")
+                sc2 = C.Scenario(reg_values={id(a2): i0, id(b2): i1}, debug=False)
+                sc2.fresh = sc.fresh
+                try:
+                    gates2 = run_handler(ctx, "_handle_two_qubit_gate", C.Obj(c, {"reg0": a2, "reg1": b2, "lineno": None}), sc2, selfo)
+                    problems2: List[str] = []
+                    U2 = C.unitary_of(repo, ev, gates2, {id(a2): pos[i0], id(b2): pos[i1], "__virt__": pos}, len(ids), electron_pos=pos[0], problems=problems2)
+                    ok2 = C.equal_up_to_phase(U2, C.embed(C.STATIC[mn], [pos[i0], pos[i1]], len(ids))) and not problems2
+                    why2 = problems2[0] if problems2 else "different operator"
+                except C.CircuitProblem as e:
+                    ok2, why2 = False, str(e)
+                except C.EvalRaise as e:
+                    ok2, why2 = False, f"raises {e}"
+                ctx.check("C07.T", f"two-qubit:{mn}:{kind}:again-on-the-same-transpiler", ok2,
+                          f"a second `{mn}` ({kind}) mapped by the same transpiler object is not self-contained: {why2}. Between two gates the program may re-point any Q register, "
+                          f"so an expansion that relies on a register set up for an earlier gate acts on the wrong qubit", c.loc(), trivial=(len(ids) < 3))
     ctx.anchor("C07.T", "two-qubit gate placements mapped", n_maps, 8)
     # MOV
     movs = [c for c in classes["two"] if C.mnemonic_of(repo, ev, c) == "mov"]
@@ -408,6 +465,10 @@ SEEDS = [
     dict(id="c07-orig-croty-axis", file="netqasm/lang/instr/nv.py", expect="C07.P", construct="nv.ControlledRotYInstruction.to_matrix", old="class ControlledRotYInstruction(core.ControlledRotationInstruction):\n    id: int = 31\n    mnemonic: str = \"crot_y\"\n\n    def to_matrix(self) -> np.ndarray:\n        axis = [0, 1, 0]", new="class ControlledRotYInstruction(core.ControlledRotationInstruction):\n    id: int = 31\n    mnemonic: str = \"crot_y\"\n\n    def to_matrix(self) -> np.ndarray:\n        axis = [1, 0, 0]"),
     dict(id="c07-table-s", file="netqasm/util/quantum_gates.py", expect="C07.P", construct="STATIC_QUBIT_GATE_TO_MATRIX[S]", old="S = np.array([[1, 0], [0, 1j]])", new="S = np.array([[1, 0], [0, -1j]])"),
     dict(id="c07-rot-sign", file="netqasm/util/quantum_gates.py", expect="C07.P", construct="generator", old="linalg.expm(-1j * angle / 2 *", new="linalg.expm(1j * angle / 2 *"),
+    dict(id="c07-cached-electron", expect="C07.T", construct="again-on-the-same-transpiler",
+         edits=[(TP, "        self._register_values: Dict[Register, Immediate] = dict()\n", "        self._register_values: Dict[Register, Immediate] = dict()\n        self._electron_register = None\n"),
+                (TP, "        electron = self.get_unused_register()\n        carbon = instr.reg0\n        set_electron = core.SetInstruction(\n            lineno=instr.lineno, reg=electron, imm=Immediate(0)\n        )\n        instr.reg0 = electron\n\n        result: List[NetQASMInstruction] = [set_electron]\n        result += (\n            self.swap(instr.lineno, electron, carbon)\n            + self._map_cnot_electron_carbon(instr)",
+                      "        result: List[NetQASMInstruction] = []\n        if self._electron_register is None:\n            self._electron_register = self.get_unused_register()\n            self._used_registers.add(self._electron_register)\n            result = [core.SetInstruction(lineno=instr.lineno, reg=self._electron_register, imm=Immediate(0))]\n        electron = self._electron_register\n        carbon = instr.reg0\n        instr.reg0 = electron\n\n        result += (\n            self.swap(instr.lineno, electron, carbon)\n            + self._map_cnot_electron_carbon(instr)")]),
     dict(id="c07-orig-t", file=TP, expect="C07.G", construct="single:t", old="                    imm0=Immediate(4),\n                    imm1=Immediate(4),", new="                    imm0=Immediate(28),\n                    imm1=Immediate(4),"),
     dict(id="c07-orig-hw-unencodable", file=TP, expect="C07.R", construct="hardware-table-encodable", old="    angle_num = (instr.angle_num.value * (2**denom_diff)) % 32", new="    angle_num = instr.angle_num.value * (2**denom_diff)"),
     dict(id="c07-hw-mod-16", file=TP, expect="C07.R", construct="hardware-table-same-angle", old="    angle_num = (instr.angle_num.value * (2**denom_diff)) % 32", new="    angle_num = (instr.angle_num.value * (2**denom_diff)) % 24"),
